@@ -1,5 +1,5 @@
 (* C06 — lemmas *)
-From Coq Require Import List NArith Bool Lia String Ascii.
+From Coq Require Import List NArith Bool Lia String Ascii PeanoNat.
 Import ListNotations.
 From VF Require Import C06.Model.
 
@@ -56,37 +56,64 @@ Ltac plan_cases :=
 
 (* ---------- crash safety (Fixed order) ---------- *)
 
-(* whatever prefix of an operation's store calls completes before the process dies, every entry of the store is
-   still there, unchanged, under its id *)
-Lemma crash_keeps_entries : forall s p o c pre id ks,
-  survive c (fst (plan Fixed s p o)) = Some pre ->
+(* whatever PROPER prefix of an operation's store calls completes before it is interrupted, every entry of the
+   store is still there, unchanged, under its id *)
+Lemma prefix_keeps_entries : forall s p o n id ks,
+  n < List.length (fst (plan Fixed s p o)) ->
+  lookup s id = Some ks ->
+  lookup (apply_calls s (firstn n (fst (plan Fixed s p o)))) id = Some ks.
+Proof.
+  intros s p o n id ks Hn L.
+  destruct o as [kt|kt|kt u k|rid|gid|eid|]; cbn [plan] in *.
+  - destruct (negb (kt_creatable kt)); [cbn in Hn; lia|].
+    destruct (lookup s (new_id kt p p)) eqn:E; cbn [fst List.length] in Hn;
+      destruct n as [|[|n]]; try lia; cbn; exact L.
+  - destruct (negb (kt_creatable kt)); [cbn in Hn; lia|].
+    destruct (lookup s (new_id kt p p)) eqn:E; cbn [fst List.length] in Hn;
+      destruct n as [|[|[|n]]]; try lia; unfold apply_calls; cbn [fst firstn fold_left apply_call];
+      try exact L; apply put_absent_keeps; assumption.
+  - destruct (negb (kt_importable kt)); [cbn in Hn; lia|].
+    match goal with |- context [lookup s ?i] => destruct (lookup s i) eqn:E end; cbn [fst List.length] in Hn;
+      destruct n as [|[|[|n]]]; try lia; unfold apply_calls; cbn [fst firstn fold_left apply_call];
+      try exact L; apply put_absent_keeps; assumption.
+  - destruct (lookup s rid) as [oks|] eqn:E; [|cbn [fst List.length] in Hn; destruct n; [exact L|lia]].
+    destruct (negb (kt_template (ks_kt oks))); [cbn [fst List.length] in Hn; destruct n; [exact L|lia]|].
+    unfold Fixed in *; cbn [v_rot] in *.
+    destruct (lookup s (new_id (ks_kt oks) p p)) eqn:E2; cbn [fst List.length] in Hn;
+      destruct n as [|[|[|[|n]]]]; try lia; unfold apply_calls; cbn [fst firstn fold_left apply_call];
+      try exact L; apply put_absent_keeps; assumption.
+  - cbn [fst List.length] in Hn. destruct n; [exact L|lia].
+  - cbn [fst List.length] in Hn. destruct n; [exact L|lia].
+  - cbn in Hn. lia.
+Qed.
+
+Lemma survive_is_prefix : forall cs c pre,
+  survive c cs = Some pre -> exists n, n < List.length cs /\ pre = firstn n cs.
+Proof.
+  induction cs as [|x r IH]; intros c pre HS; cbn in HS; [discriminate|].
+  destruct (is_mutation x).
+  - destruct c as [|c]; [inversion HS; exists 0; cbn; split; [lia|reflexivity]|].
+    destruct (survive c r) as [pre'|] eqn:HS'; cbn in HS; [|discriminate]. inversion HS; subst.
+    destruct (IH c pre' HS') as (n & Hn & ->). exists (S n). cbn. split; [lia|reflexivity].
+  - destruct (survive c r) as [pre'|] eqn:HS'; cbn in HS; [|discriminate]. inversion HS; subst.
+    destruct (IH c pre' HS') as (n & Hn & ->). exists (S n). cbn. split; [lia|reflexivity].
+Qed.
+
+Lemma cut_is_prefix : forall i cs pre,
+  cut i cs = Some pre -> exists n, n < List.length cs /\ pre = firstn n cs.
+Proof.
+  intros [c|n] cs pre H; unfold cut in H; [apply survive_is_prefix in H; exact H|].
+  destruct (Nat.ltb n (List.length cs)) eqn:E; [|discriminate]. inversion H; subst.
+  apply Nat.ltb_lt in E. exists n. split; [exact E | reflexivity].
+Qed.
+
+Lemma crash_keeps_entries : forall s p o i pre id ks,
+  cut i (fst (plan Fixed s p o)) = Some pre ->
   lookup s id = Some ks ->
   lookup (apply_calls s pre) id = Some ks.
 Proof.
-  intros s p o c pre id ks Hs L.
-  destruct o as [kt|kt|kt u k|rid|gid|eid|]; cbn [plan] in Hs.
-  - (* create *)
-    destruct (negb (kt_creatable kt)); [discriminate|].
-    destruct (lookup s (new_id kt p p)) eqn:E; cbn in Hs.
-    + discriminate.
-    + destruct c; cbn in Hs; inversion Hs; subst; cbn; exact L.
-  - destruct (negb (kt_creatable kt)); [discriminate|].
-    destruct (lookup s (new_id kt p p)) eqn:E; cbn in Hs.
-    + discriminate.
-    + destruct c; cbn in Hs; inversion Hs; subst; cbn; exact L.
-  - destruct (negb (kt_importable kt)); [discriminate|].
-    match type of Hs with context [lookup s ?i] => destruct (lookup s i) eqn:E end; cbn in Hs.
-    + discriminate.
-    + destruct c; cbn in Hs; inversion Hs; subst; cbn; exact L.
-  - destruct (lookup s rid) as [oks|] eqn:E; cbn in Hs; [|discriminate].
-    destruct (negb (kt_template (ks_kt oks))); cbn in Hs; [discriminate|].
-    destruct (lookup s (new_id (ks_kt oks) p p)) eqn:E2; cbn in Hs; [discriminate|].
-    destruct c as [|[|c]]; cbn in Hs; inversion Hs; subst; cbn.
-    + exact L.
-    + apply put_absent_keeps; assumption.
-  - cbn in Hs. discriminate.
-  - cbn in Hs. discriminate.
-  - cbn in Hs. discriminate.
+  intros s p o i pre id ks H L. destruct (cut_is_prefix _ _ _ H) as (n & Hn & ->).
+  apply prefix_keeps_entries; assumption.
 Qed.
 
 (* the as-is order loses the entry *)
@@ -94,7 +121,7 @@ Definition asis_witness_store : store := [(KThumb 0%N, {| ks_kt := K_ED25519; ks
 
 (* ---------- what a completed or interrupted step does to one entry ---------- *)
 
-Definition calls_of (v : variant) (st : kstate) (oc : kop * option nat) : list scall :=
+Definition calls_of (v : variant) (st : kstate) (oc : kop * option intr) : list scall :=
   fst (snd (step_calls v st oc)).
 
 Lemma step_store v st oc :
@@ -102,19 +129,19 @@ Lemma step_store v st oc :
 Proof.
   unfold step, calls_of, step_calls. destruct oc as [o c].
   destruct (plan v (st_store st) (st_pos st) o) as [cs out].
-  destruct c as [c|]; [destruct (survive c cs)|]; reflexivity.
+  destruct c as [c|]; [destruct (cut c cs)|]; reflexivity.
 Qed.
 
 Lemma step_pos v st oc : st_pos (fst (step v st oc)) = N.succ (st_pos st).
 Proof.
   unfold step, step_calls. destruct oc as [o c].
   destruct (plan v (st_store st) (st_pos st) o) as [cs out].
-  destruct c as [c|]; [destruct (survive c cs)|]; reflexivity.
+  destruct c as [c|]; [destruct (cut c cs)|]; reflexivity.
 Qed.
 
 (* a step either crashed (then crash_keeps_entries applies) or ran its whole plan *)
 Lemma step_cases v st o c :
-  (exists n pre, c = Some n /\ survive n (fst (plan v (st_store st) (st_pos st) o)) = Some pre /\
+  (exists n pre, c = Some n /\ cut n (fst (plan v (st_store st) (st_pos st) o)) = Some pre /\
                  calls_of v st (o, c) = pre /\ snd (step v st (o, c)) = OCrashed) \/
   (calls_of v st (o, c) = fst (plan v (st_store st) (st_pos st) o) /\
    snd (step v st (o, c)) = snd (plan v (st_store st) (st_pos st) o)).
@@ -122,7 +149,7 @@ Proof.
   unfold calls_of, step, step_calls.
   destruct (plan v (st_store st) (st_pos st) o) as [cs out] eqn:P.
   destruct c as [n|].
-  - destruct (survive n cs) as [pre|] eqn:S.
+  - destruct (cut n cs) as [pre|] eqn:S.
     + left. exists n, pre. cbn. repeat split; try reflexivity. exact S.
     + right. cbn. split; reflexivity.
   - right. cbn. split; reflexivity.
@@ -283,15 +310,17 @@ Qed.
 
 Lemma import_existing_refused : forall v st kt u k c ks,
   lookup (st_store st) (KUser u) = Some ks ->
-  snd (step v st (KImport kt (Some u) k, c)) = OErr /\
+  (snd (step v st (KImport kt (Some u) k, c)) = OErr \/ snd (step v st (KImport kt (Some u) k, c)) = OCrashed) /\
   st_store (fst (step v st (KImport kt (Some u) k, c))) = st_store st.
 Proof.
   intros v st kt u k c ks L. rewrite step_store.
   destruct (step_cases v st (KImport kt (Some u) k) c) as [(n & pre & -> & S & C & O) | (C & O)].
-  - exfalso. cbn [plan fst] in S. destruct (negb (kt_importable kt)); [discriminate|].
-    rewrite L in S. cbn in S. discriminate.
-  - rewrite C, O. cbn [plan]. destruct (negb (kt_importable kt)); [split; reflexivity|].
-    rewrite L. split; reflexivity.
+  - split; [right; exact O|]. rewrite C. cbn [plan fst] in S.
+    destruct (negb (kt_importable kt)); [destruct n; cbn in S; try discriminate; destruct n; discriminate|].
+    rewrite L in S. cbn [fst] in S. destruct (cut_is_prefix _ _ _ S) as (m & Hm & ->).
+    cbn in Hm. destruct m; [reflexivity|lia].
+  - rewrite C, O. cbn [plan]. destruct (negb (kt_importable kt)); [split; [left|]; reflexivity|].
+    rewrite L. split; [left|]; reflexivity.
 Qed.
 
 (* every Put of every plan goes to an id that is absent at that moment (both variants) *)
@@ -433,6 +462,15 @@ Proof.
     destruct x; cbn in *; try discriminate. eapply IH; eassumption.
 Qed.
 
+Lemma firstn_wf : forall cs n, calls_wf cs -> calls_wf (firstn n cs).
+Proof.
+  induction cs as [|x r IH]; intros [|n] W; cbn; try exact I.
+  destruct x; cbn in *; [apply IH; exact W | destruct W as [W1 W2]; split; [exact W1 | apply IH; exact W2] | apply IH; exact W].
+Qed.
+
+Lemma cut_wf : forall i cs pre, cut i cs = Some pre -> calls_wf cs -> calls_wf pre.
+Proof. intros i cs pre H W. destruct (cut_is_prefix _ _ _ H) as (n & _ & ->). apply firstn_wf. exact W. Qed.
+
 Lemma new_id_thumb kt k p k' : new_id kt k p = KThumb k' -> k' = k.
 Proof. unfold new_id. destruct (kt_random_id kt); intro H; inversion H; reflexivity. Qed.
 
@@ -466,7 +504,7 @@ Lemma step_thumb_wf : forall v st oc, thumb_wf (st_store st) -> thumb_wf (st_sto
 Proof.
   intros v st [o c] W. rewrite step_store.
   destruct (step_cases v st o c) as [(n & pre & -> & S & C & O) | (C & O)]; rewrite C.
-  - apply apply_calls_wf; [exact W|]. eapply survive_wf; [exact S | apply plan_calls_wf].
+  - apply apply_calls_wf; [exact W|]. eapply cut_wf; [exact S | apply plan_calls_wf].
   - apply apply_calls_wf; [exact W | apply plan_calls_wf].
 Qed.
 
